@@ -181,11 +181,11 @@ class BaseValidator(object):
         if not self._is_closed:
             # Closed even if a check fails, so each check is asked only once.
             self._is_closed = True
-            if not self._has_reset_checks:
-                # A run without any row (for example ``validate(..., validate_until=0)``, where
-                # ``rows()`` never starts) must not see what the CID was used for before.
-                self._reset_checks()
             try:
+                if not self._has_reset_checks:
+                    # A run without any row (for example ``validate(..., validate_until=0)``, where
+                    # ``rows()`` never starts) must not see what the CID was used for before.
+                    self._reset_checks()
                 for check_name in self.cid.check_names:
                     self.cid.check_map[check_name].check_at_end(self.location)
             finally:
